@@ -228,7 +228,9 @@ def _judge_redirect(c, obs, rig, target, before, raised, url):
         raise HarnessError(f"TLS rig (redirector) did not settle (wall-clock) - inconclusive; cfg={c}")
     with red.lock:
         plain_second = any(b"\r\n\r\n" in (r.get("second_plain") or b"") for r in red.records)
-    if via == "other-port" and not plain_second and not wait(target, 1):
+        first_plain = any((r.get("plain_request") or b"").startswith(b"GET /start ") for r in red.records)
+    # the target is only awaited when the redirect was actually delivered over the plain first hop
+    if via == "other-port" and first_plain and not plain_second and not wait(target, 1):
         raise HarnessError(f"TLS rig (target) did not settle (wall-clock) - inconclusive; cfg={c}")
     if not rig.settle(6.0):
         raise HarnessError(f"TLS rig did not settle (wall-clock) - inconclusive; cfg={c}")
@@ -243,7 +245,10 @@ def _judge_redirect(c, obs, rig, target, before, raised, url):
     if others:
         obs.fail(f"{tag}|wrong-endpoint-contacted", f"{c}")
     if not any(r["plain_request"].startswith(b"GET /start ") for r in hops):
-        obs.fail(f"{tag}|first-hop-not-seen", f"{[r.get('plain_request', b'')[:30] for r in rrecs]}")
+        obs.fail(f"{tag}|ws-first-hop-not-plain", f"the ws:// endpoint saw {[(r['first'], r.get('plain_request', b'')[:30]) for r in rrecs]}")
+        obs.cls = ("wss", f"redirect-{via}", "first-hop-not-plain")
+        obs.nt = repr(sorted(c.items()))
+        return obs
     leaked = [r for r in hops if b"\r\n\r\n" in (r.get("second_plain") or b"") or r["plain_request"].startswith(b"GET /tls")]
     if leaked:
         obs.fail(f"{tag}|wss-hop-sent-in-plaintext", f"the request for {red.location!r} arrived unencrypted: {(leaked[0].get('second_plain') or leaked[0]['plain_request'])[:40]!r}; cfg={c}")
